@@ -11,6 +11,7 @@
 (*            fraction), tn, td, diffs: <<<<[n, d]>>>>]                    *)
 (*  "multi": [ntest, ntrain, calls, log]  (multi_run_ode + ResultsLog)     *)
 (*  "describe": [ntest, ntrain, header_ok, nlines, rows_ok]                *)
+(*  "sampling": [pairs: <<[a, b]>>, m]  dyadic numbers (scale 2^60)        *)
 (***************************************************************************)
 EXTENDS F64, Dyadic, TraceIO, Sequences, FiniteSets
 VARIABLE tid
@@ -104,6 +105,17 @@ Multi(c) ==
    \cup (IF \E i \in 1..k : c.calls[i].same_ode = 1 /\ c.calls[i].same_t # 1 THEN {"multi-run:time-not-of-that-simulation"} ELSE {}))
   \cup (IF c.log.header_ok # 1 \/ c.log.nlines # Len(c.calls) + 1 THEN {"results-log:header-once-then-one-line-per-run"} ELSE {})
   \cup (IF \E i \in 1..Len(c.log.rows_ok) : c.log.rows_ok[i] # 1 THEN {"results-log:line-not-the-values-of-its-run"} ELSE {})
+\* "for well-behaved linear systems the simulated states agree with the analytic solution": closed forms need
+\* exp / cos and are out of TLC's reach, but a necessary consequence is not - the state at a time t must not depend
+\* on how many OTHER rows were requested.  A contracting linear system is simulated twice, coarsely and finely
+\* (the coarse times are a subset of the fine ones); at the common times the two states (exact dyadic numbers,
+\* scale 2^60) must agree within 1/16 of (1 + the largest |state| of the fine run) - far above the integrator's
+\* tolerance (1e-3 relative), far below what an interpolation outside the accepted step produces.
+\* pairs: <<[a, b]>> with a, b the coarse / fine value of one state variable at one common time; m = 1 + max |x|
+Sampling(c) ==
+  IF \E k \in 1..Len(c.pairs) :
+        ~BLe(BMul(DAbs(DSub(c.pairs[k].a, c.pairs[k].b)), BOfNat(16)), DAbs(c.m))
+  THEN {"state-at-a-time-depends-on-the-number-of-requested-rows"} ELSE {}
 \* System.describe_system: the results table it writes holds one line per starting state - test states first - with
 \* the values of that state's simulation under the budget (steps, time) of ITS group
 Describe(c) ==
@@ -111,7 +123,8 @@ Describe(c) ==
   \cup (IF \E i \in 1..Len(c.rows_ok) : c.rows_ok[i] # 1
         THEN {"describe-system:line-not-the-values-of-its-run-under-its-group-budget"} ELSE {})
 Verdict(c) == IF c.kind = "run" THEN Run(c) ELSE IF c.kind = "merit" THEN Merit(c)
-              ELSE IF c.kind = "multi" THEN Multi(c) ELSE IF c.kind = "describe" THEN Describe(c) ELSE JReal(c)
+              ELSE IF c.kind = "multi" THEN Multi(c) ELSE IF c.kind = "describe" THEN Describe(c)
+              ELSE IF c.kind = "sampling" THEN Sampling(c) ELSE JReal(c)
 Init == tid = 0
 Next == /\ tid < NCases /\ tid' = tid + 1
         /\ PrintT(<<"V", Cases[tid'].id, Verdict(Cases[tid'])>>)
